@@ -1217,6 +1217,56 @@ func ruleStickyAfterFinish(c *Ctx, rule string) {
 	}
 }
 
+// ruleCloseSendAfterFinish (C02.14, C01.x): half-closing a stream that already completed normally is not an error.
+func ruleCloseSendAfterFinish(c *Ctx, rule string) {
+	c.rule(rule, "CloseSend on a stream that has already finished: the recorded outcome is returned only when it is a failure; when the RPC completed normally (the clean-end marker io.EOF — a handler may answer before the caller half-closes) CloseSend returns nil, so that generated code (`CloseAndRecv`: CloseSend, then RecvMsg) still receives the response and the OK status instead of a bare io.EOF")
+	w := c.W
+	a := w.Anchors()
+	cs := w.methodFn(a.CS, "CloseSend")
+	if cs == nil {
+		c.fail(rule, "client CloseSend", "-", "not found")
+		return
+	}
+	nMarker, okAll := 0, true
+	var at ssa.Instruction
+	forEachReturnValue(cs, 0, func(v0 ssa.Value, ret ssa.Instruction) {
+		cases := valueCases(v0, 4)
+		if c.readsMarker(v0, a.CSDone) {
+			cases = []valueCase{{stripConv(v0), nil}} // `return st.loadDone()`: the marker itself, not the helper's alternatives
+		}
+		for _, vc := range cases {
+			if !c.readsMarker(vc.Val, a.CSDone) {
+				continue
+			}
+			nMarker++
+			notEOF := false
+			for _, f := range append(append([]EdgeFact{}, factsAt(ret)...), vc.Facts...) {
+				x, op, y, isCmp := cmpFact(f)
+				if isCmp && op == token.NEQ && desc(y) == "*global:EOF" && origin(x) == origin(vc.Val) {
+					notEOF = true
+				}
+			}
+			for _, bf := range boolFactsOf(append(append([]EdgeFact{}, factsAt(ret)...), vc.Facts...)) {
+				if call, ok := bf.V.(*ssa.Call); ok && !bf.True && calleeName(call) == "errors.Is" && len(call.Call.Args) == 2 && origin(call.Call.Args[0]) == origin(vc.Val) && desc(call.Call.Args[1]) == "*global:EOF" {
+					notEOF = true
+				}
+			}
+			if !notEOF {
+				okAll, at = false, ret
+			}
+		}
+	})
+	pos := posOf(w, cs)
+	if at != nil {
+		pos = w.At(at)
+	}
+	if nMarker == 0 {
+		c.ok(rule, w.Short(cs)+": never reports the clean end as an error", pos, "CloseSend does not return the recorded outcome at all")
+		return
+	}
+	c.check(okAll, rule, w.Short(cs)+": never reports the clean end as an error", pos, "the recorded outcome is returned only under outcome != io.EOF", "CloseSend returns the stream's recorded outcome also when that is the clean-end marker: after a handler answered (OK) before the caller half-closed, CloseSend fails with a bare io.EOF, generated CloseAndRecv returns that error, and the response message and OK status the handler sent are never delivered")
+}
+
 func dominatesAnyDequeue(fn *ssa.Function, ret ssa.Instruction) bool {
 	s := analyseReasm(fn)
 	return s.deq != nil && dominates(s.deq, ret)
